@@ -131,7 +131,8 @@ def impl_query(rule, q):
         if k == "in":
             return "ok b %d" % int(to_dt(q[1]) in rule)
         if k == "cnt":
-            return "ok n %d" % rule.count()
+            c = rule.count()
+            return "ok v -" if c is None else "ok n %d" % c        # count() returning None is an observation, not a harness error
         if k == "bef":
             return show_val(rule.before(to_dt(q[1]), inc=q[2]))
         if k == "aft":
